@@ -249,6 +249,16 @@ EGLPNUM_TYPENAME_QSLIB_INTERFACE int EGLPNUM_TYPENAME_QSopt_dual (
 	{
 		rval = opt_work (p, status, 1);
 		CHECKRVALG (rval, CLEANUP);
+		/* INFEASIBLE out of dual phase I only means that the dual is infeasible;
+		 * the LP may as well be unbounded.  Let the primal simplex decide, as
+		 * QSexact_solver does for its floating point stages. */
+		if (p->qstatus == QS_LP_INFEASIBLE &&
+				p->lp->final_phase != PRIMAL_PHASEI &&
+				p->lp->final_phase != DUAL_PHASEII)
+		{
+			rval = opt_work (p, status, 0);
+			CHECKRVALG (rval, CLEANUP);
+		}
 	}
 	else
 	{
